@@ -337,6 +337,8 @@ class MapStreamSpec(SeqSpec):
         cfg["_pattern"] = kind
         cfg["_pace"] = pace
         cfg["_mode"] = mode
+        if rng.random() < 0.3:
+            cfg["slowclose_ms"] = 4       # the source's Close takes a while
         return {"component": "mapstream", "cfg": cfg, "ops": ops}
 
     def gen(self, rng, tier, scale):
